@@ -186,4 +186,124 @@ theorem saveImg_obj (x : Image) :
   simp only [saveImg, canon, head10, commentBody]
   cases x.comment <;> simp [refreshComment]
 
+/-! what `from_bytes` accepts is well formed -/
+
+theorem readSectors_wf (n : Nat) (bs : List Nat) (ss : List Sector) (rest : List Nat)
+    (h : readSectors n bs = some (ss, rest)) : ss.length = n ∧ ∀ s ∈ ss, SectorWf s := by
+  fun_induction readSectors n bs generalizing ss rest with
+  | case1 bytes =>
+    simp only [Option.some.injEq, Prod.mk.injEq] at h
+    obtain ⟨rfl, _⟩ := h
+    simp
+  | case2 n c hh i sh fl crc r hsh => simp at h
+  | case3 n c hh i sh fl crc hsh hfl l0 l1 r2 len hlen => simp at h
+  | case4 n c hh i sh fl crc hsh hfl l0 l1 r2 len hlen ss' rest' hr ih =>
+    simp only [Option.some.injEq, Prod.mk.injEq] at h
+    obtain ⟨rfl, rfl⟩ := h
+    obtain ⟨h1, h2⟩ := ih ss' rest' hr
+    refine ⟨by simp [h1], ?_⟩
+    intro s hs
+    simp only [List.mem_cons] at hs
+    rcases hs with rfl | hs
+    · refine ⟨by simp only; omega, Or.inr ⟨hfl, l0, l1, r2.take len, rfl, ?_⟩⟩
+      simp only [List.length_take, len]; omega
+    · exact h2 s hs
+  | case5 n c hh i sh fl crc hsh hfl l0 l1 r2 len hlen hr => simp at h
+  | case6 n c hh i sh fl crc r hsh hfl hx => simp at h
+  | case7 n c hh i sh fl crc r hsh hfl ss' rest' hr ih =>
+    simp only [Option.some.injEq, Prod.mk.injEq] at h
+    obtain ⟨rfl, rfl⟩ := h
+    obtain ⟨h1, h2⟩ := ih ss' rest' hr
+    refine ⟨by simp [h1], ?_⟩
+    intro s hs
+    simp only [List.mem_cons] at hs
+    rcases hs with rfl | hs
+    · exact ⟨by simp only; omega, Or.inl ⟨hfl, rfl⟩⟩
+    · exact h2 s hs
+  | case8 n c hh i sh fl crc r hsh hfl hr => simp at h
+  | case9 n bytes hx => simp at h
+
+theorem readTracks_wf (fuel : Nat) (bs : List Nat) (ts : List Track) (h : readTracks fuel bs = some ts) :
+    ∀ t ∈ ts, TrackWf t := by
+  induction fuel generalizing bs ts with
+  | zero => simp [readTracks] at h
+  | succ f ih =>
+    unfold readTracks at h
+    split at h
+    · simp only [Option.some.injEq] at h; subst h; simp
+    · rename_i b tl
+      split at h
+      · simp only [Option.some.injEq] at h; subst h; simp
+      · rename_i hb
+        split at h
+        · rename_i n c hd crc r heq
+          split at h
+          · rename_i ss rest hrs
+            split at h
+            · rename_i ts' hrt
+              simp only [Option.some.injEq] at h
+              subst h
+              intro t ht
+              simp only [List.mem_cons] at ht
+              rcases ht with rfl | ht
+              · obtain ⟨h1, h2⟩ := readSectors_wf _ _ _ _ hrs
+                have hn : n = b := by
+                  have := congrArg List.head? heq
+                  simp at this
+                  exact this.symm
+                exact ⟨h1.symm, by simp only; rw [hn]; exact hb, h2⟩
+              · exact ih _ _ hrt t ht
+            · simp at h
+          · simp at h
+        · simp at h
+
+/-- the notes of a loaded file never contain a NUL or a CR LF pair, whatever bytes (and whatever the lossy UTF-8 conversion
+made of them) the file held -/
+theorem decodeText_spec (e : List Nat) : noCRLF (decodeText e) = true ∧ ∀ b ∈ decodeText e, b ≠ 0 := by
+  apply normalizeNotes_spec
+  intro h0
+  simp only [List.mem_map] at h0
+  obtain ⟨a, _, ha⟩ := h0
+  by_cases hz : a = 0
+  · simp [hz] at ha
+  · simp [hz] at ha
+
+theorem clipEnd_le (t : List Nat) (n : Nat) : clipEnd t n ≤ n := by
+  induction n with
+  | zero => simp [clipEnd]
+  | succ n ih => simp only [clipEnd]; split <;> omega
+
+theorem clipNotes_length (limit : Nat) (t : List Nat) : (clipNotes limit t).length ≤ limit := by
+  unfold clipNotes
+  split
+  · have := clipEnd_le t limit
+    simp only [List.length_take]; omega
+  · omega
+
+theorem noCRLF_take (t : List Nat) (n : Nat) (h : noCRLF t = true) : noCRLF (t.take n) = true := by
+  induction t using noCRLF.induct generalizing n with
+  | case1 => simp [noCRLF]
+  | case2 a => cases n <;> simp [noCRLF]
+  | case3 a b r ih =>
+    simp only [noCRLF, Bool.and_eq_true, Bool.not_eq_eq_eq_not, Bool.not_true] at h
+    match n with
+    | 0 => simp [noCRLF]
+    | 1 => simp [noCRLF]
+    | n + 2 =>
+      have := ih (n + 1) h.2
+      simp only [List.take_succ_cons] at this ⊢
+      simp only [noCRLF, Bool.and_eq_true, Bool.not_eq_eq_eq_not, Bool.not_true]
+      exact ⟨h.1, this⟩
+
+theorem clipNotes_spec (limit : Nat) (t : List Nat) (hc : noCRLF t = true) (h0 : ∀ b ∈ t, b ≠ 0) :
+    noCRLF (clipNotes limit t) = true ∧ ∀ b ∈ clipNotes limit t, b ≠ 0 := by
+  unfold clipNotes
+  split
+  · exact ⟨noCRLF_take t _ hc, fun b hb => h0 b (List.mem_of_mem_take hb)⟩
+  · exact ⟨hc, h0⟩
+
+/-- without a CR LF pair the stored form has the length of the notes (every LF becomes one NUL) -/
+theorem encodeText_length (t : List Nat) (hc : noCRLF t = true) : (encodeText t).length = t.length := by
+  simp [encodeText, replCRLF_id 0 t hc]
+
 end A2Verif.Lemmas.C08Td0
